@@ -7,6 +7,28 @@ use refmodel::{Obs, ZNum};
 use vengine::{bo, oord, ord, same, v};
 use vengine::{op, oph, Aux, Op, ShiftRhs, Subj};
 
+/// an operator against the checked / wrapping family (independent of the const twins the trait impls
+/// delegate to): debug builds panic exactly where `checked_*` is None, release builds wrap; division
+/// and remainder panic exactly where `checked_*` is None in both modes
+macro_rules! anchored {
+    (modal, $c:expr, $w:expr) => {
+        if cfg!(debug_assertions) {
+            match $c {
+                Some(x) => v(x),
+                None => Obs::Panic,
+            }
+        } else {
+            v($w)
+        }
+    };
+    (strict, $c:expr) => {
+        match $c {
+            Some(x) => v(x),
+            None => Obs::Panic,
+        }
+    };
+}
+
 /// six forms of a binary operator against the inherent method
 macro_rules! binop {
     ($T:ty, $op:tt, $opa:tt, $inh:ident, $n0:literal, $n1:literal, $n2:literal, $n3:literal, $n4:literal, $n5:literal) => {{
@@ -151,6 +173,18 @@ macro_rules! common {
         t.extend(binop!($T, &, &=, bitand, "and a&b", "and &a&b", "and a&&b", "and &a&&b", "and a&=b", "and a&=&b"));
         t.extend(binop!($T, |, |=, bitor, "or a|b", "or &a|b", "or a|&b", "or &a|&b", "or a|=b", "or a|=&b"));
         t.extend(binop!($T, ^, ^=, bitxor, "xor a^b", "xor &a^b", "xor a^&b", "xor &a^&b", "xor a^=b", "xor a^=&b"));
+        let anchored: Vec<Op<$T, Z>> = vec![
+            op!("add a+b vs checked/wrapping_add", 2, Aux::None, spec::always_true, |r, _x| same(&|| v(r[0] + r[1]), &|| anchored!(modal, r[0].checked_add(r[1]), r[0].wrapping_add(r[1])))),
+            op!("sub a-b vs checked/wrapping_sub", 2, Aux::None, spec::always_true, |r, _x| same(&|| v(r[0] - r[1]), &|| anchored!(modal, r[0].checked_sub(r[1]), r[0].wrapping_sub(r[1])))),
+            op!("mul a*b vs checked/wrapping_mul", 2, Aux::None, spec::always_true, |r, _x| same(&|| v(r[0] * r[1]), &|| anchored!(modal, r[0].checked_mul(r[1]), r[0].wrapping_mul(r[1])))),
+            op!("div a/b vs checked_div", 2, Aux::None, spec::always_true, |r, _x| same(&|| v(r[0] / r[1]), &|| anchored!(strict, r[0].checked_div(r[1])))),
+            op!("rem a%b vs checked_rem", 2, Aux::None, spec::always_true, |r, _x| same(&|| v(r[0] % r[1]), &|| anchored!(strict, r[0].checked_rem(r[1])))),
+            op!("div a/=b vs checked_div", 2, Aux::None, spec::always_true, |r, _x| same(&|| { let mut a = r[0]; a /= r[1]; v(a) }, &|| anchored!(strict, r[0].checked_div(r[1])))),
+            op!("rem a%=b vs checked_rem", 2, Aux::None, spec::always_true, |r, _x| same(&|| { let mut a = r[0]; a %= r[1]; v(a) }, &|| anchored!(strict, r[0].checked_rem(r[1])))),
+            op!("shl a<<u32 vs checked/wrapping_shl", 1, Aux::Shift, spec::always_true, |r, x| same(&|| v(r[0] << (x as u32)), &|| anchored!(modal, r[0].checked_shl(x as u32), r[0].wrapping_shl(x as u32)))),
+            op!("shr a>>u32 vs checked/wrapping_shr", 1, Aux::Shift, spec::always_true, |r, x| same(&|| v(r[0] >> (x as u32)), &|| anchored!(modal, r[0].checked_shr(x as u32), r[0].wrapping_shr(x as u32)))),
+        ];
+        t.extend(anchored);
         let unary: Vec<Op<$T, Z>> = vec![
             op!("not !a", 1, Aux::None, spec::always_true, |r, _x| same(&|| v(!r[0]), &|| v(r[0].not()))),
             op!("not !&a", 1, Aux::None, spec::always_true, |r, _x| same(&|| v(!&r[0]), &|| v(r[0].not()))),
@@ -247,6 +281,7 @@ macro_rules! tables {
                 let neg: Vec<Op<$BInt<N>, Z>> = vec![
                     op!("neg -a", 1, Aux::None, spec::always_true, |r, _x| same(&|| v(-r[0]), &|| v(r[0].neg()))),
                     op!("neg -&a", 1, Aux::None, spec::always_true, |r, _x| same(&|| v(-&r[0]), &|| v(r[0].neg()))),
+                    op!("neg -a vs checked/wrapping_neg", 1, Aux::None, spec::always_true, |r, _x| same(&|| v(-r[0]), &|| anchored!(modal, r[0].checked_neg(), r[0].wrapping_neg()))),
                 ];
                 t.extend(neg);
                 t
